@@ -89,6 +89,8 @@ prop("C15", "exploration",
      [
          {"test": "TestC15_Compression", "quick": {"checks": 8000, "timeout": 200},
           "thorough": {"checks": 80000, "shards": 16, "timeout": 1500}},
+         {"test": "TestC15_ClientRoundTrip", "quick": {"checks": 1500, "shards": 4, "timeout": 300},
+          "thorough": {"checks": 10000, "shards": 16, "timeout": 1500}},
          {"test": "TestC15_SharedCompressor", "quick": {"checks": 1500, "shards": 4, "timeout": 300},
           "thorough": {"checks": 8000, "shards": 16, "timeout": 1500}},
          {"test": "TestC15_SharedCompressor", "tag": "race", "thorough": {"checks": 300, "shards": 4, "timeout": 1500, "race": True}},
@@ -234,6 +236,8 @@ prop("C03", "fault_enumeration",
      "Trusted: memconn fault injection; goroutine interleavings between the failing paths are sampled (2 repetitions per "
      "position), not enumerated.",
      [
+         {"test": "TestC03_SenderRacesFailure", "quick": {"checks": 600, "timeout": 300},
+          "thorough": {"checks": 6000, "shards": 8, "timeout": 1500}},
          {"test": "TestC03_ConnectionFailure", "quick": {"checks": 1500, "timeout": 300},
           "thorough": {"checks": 15000, "shards": 16, "timeout": 2400}},
          {"test": "TestC03_ConnectionFailure", "tag": "race", "thorough": {"checks": 600, "shards": 4, "timeout": 3000, "race": True}},
